@@ -93,7 +93,7 @@ class Ctx:
             if cinit:
                 cmd.append("--cinit=" + cinit)
             t0 = time.time()
-            env = dict(os.environ, JVM_ARGS="-Xmx4g -Djava.io.tmpdir=" + d)
+            env = dict(os.environ, JVM_ARGS="-Xmx4g -Djava.io.tmpdir=" + d, TMPDIR=d)      # (the wrapper makes its own SANY* directory under $TMPDIR)
             try:
                 pr = subprocess.run(cmd + [module + ".tla"], cwd=d, capture_output=True, text=True, timeout=timeout, env=env)
             except subprocess.TimeoutExpired:
